@@ -98,6 +98,8 @@ def _rejects(body):
                 return True
             if isinstance(x, ast.Dict) and any(const(k) == "errorType" for k in x.keys):
                 return True
+            if isinstance(x, ast.Dict) and any(const(k) == "Error" and const(v) == "States.DataLimitExceeded" for k, v in zip(x.keys, x.values)):
+                return True     # end_execution: the output is replaced by the in-band error object and the execution fails
     return False
 
 
@@ -176,7 +178,7 @@ def r2_r3(chk, ctx):
                    message="the quota is in characters of JSON text; the UTF-8 byte count is larger for non-ASCII text, so a legal result is refused")
     # enforcement points confirmed by hand
     expected = {
-        "MAX_DATA_LENGTH": ["StateEngine.change_state", "TaskDispatcher.handle_rpcmessage_response", "aws_api_StartExecution", "aws_api_StartExecution",
+        "MAX_DATA_LENGTH": ["StateEngine.change_state", "StateEngine.end_execution", "TaskDispatcher.handle_rpcmessage_response", "aws_api_StartExecution", "aws_api_StartExecution",
                             "aws_api_StartSyncExecution", "aws_api_SendTaskSuccess"],
         "MAX_STATE_MACHINE_LENGTH": ["aws_api_CreateStateMachine", "aws_api_CreateStateMachine", "aws_api_UpdateStateMachine", "aws_api_UpdateStateMachine"],
         "MAX_EXECUTION_HISTORY_LENGTH": ["StateEngine.notify"],
